@@ -50,11 +50,16 @@ def _is_arg(t, i: int) -> bool:
 def run(ctx: Ctx, env):
     repo = env.repo
     H = heval.get(env)
+    from .common import check_mutable_defaults
+    check_mutable_defaults(ctx, env, ("odata_query.sqlalchemy",), "R6.no-state-shared-between-calls", "a later translation depends on an earlier one")
     # the handlers rely on typing.infer_type / typecheck to refuse ill-typed arguments and to accept well-typed ones: the rules
     # of C18 (what type each call has, when typecheck must raise) are a precondition
     from . import c18 as _c18
     from .c04 import _SubCtx
     _c18.run(_SubCtx(ctx, only={"R1.return-type", "R2.infer-type-of-call", "R3.typecheck"}, rename=lambda r: "R0.typing-" + r.split(".", 1)[1]), env)
+    # every literal of the filter needs a parameter of its own (two literals merged into one parameter select other rows): C08's rule
+    from . import c08 as _c08
+    _c08.run(_SubCtx(ctx, only={"R1.one-parameter-per-value"}), env)
     for q in (ORM, CORE):
         if q not in repo.classes:
             raise AnalysisError(f"{q} not found")
